@@ -348,6 +348,34 @@ var scalarField = map[reflect.Kind]string{
 }
 
 // pick draws a value of the kind: boundaries, samples, and values outside the wire type.
+// notShortestInts parses a message with the reference decoder and reports the first int / long value
+// that is not written in the shortest form of its wire type ("" if all are).
+func notShortestInts(b []byte) string {
+	rv, _, err := hspec.Parse(b)
+	if err != nil {
+		return ""
+	}
+	bad := ""
+	hspec.Walk(rv, func(n *hspec.Value) {
+		if bad != "" || n.Ann == nil || n.Ann.End <= n.Ann.Off || n.Ann.End > len(b) {
+			return
+		}
+		var want []byte
+		switch n.Kind {
+		case hspec.KInt:
+			want = specInt(int32(n.I))
+		case hspec.KLong:
+			want = specLong(n.I)
+		default:
+			return
+		}
+		if got := b[n.Ann.Off:n.Ann.End]; !bytes.Equal(got, want) {
+			bad = fmt.Sprintf("%d is written as %x inside the message, the shortest form is %x", n.I, got, want)
+		}
+	})
+	return bad
+}
+
 func pickInt(r *rand.Rand, t reflect.Type) (reflect.Value, bool) {
 	v := reflect.New(t).Elem()
 	beyond := false
@@ -603,6 +631,13 @@ func c07kinds(c Case, env *Env, res *Result) {
 				if !beyond && !bytes.Equal(b, want) {
 					viol("form:not-spec", fmt.Sprintf("emitted %x, want %x", b, want))
 				}
+			}
+			if pos != "top" && !beyond {
+				// every integer inside the message in the shortest form of its wire type, wherever it stands
+				if bad := notShortestInts(b); bad != "" {
+					viol("form:not-spec", bad)
+				}
+				res.Count("messages_whose_integers_were_checked_for_the_shortest_form", 1)
 			}
 			d, err := hessian.ToObject(b, typMap)
 			if err != nil {
